@@ -152,6 +152,7 @@ class Session:
             self.can_decrypt = False
             return
 
+        keys = None
         match tls_version:
             case TlsVersion.TLS13:
                 keys = key_derivator.dev_tls_13_keys(secret_list, key_length, cipher_suite["MAC"]())
@@ -193,6 +194,11 @@ class Session:
                     keys = key_derivator.dev_ssl_30_keys(master_secret, client_random, server_random, key_length,
                                                          mac_length, 2 * key_length + 2 * mac_length,
                                                          cipher_suite["CryptoAlgo"][0], cipher_suite["CryptoAlgo"][1])
+
+        if keys is None:
+            # the first matching key log line is of a kind this protocol version cannot use
+            self.can_decrypt = False
+            return
 
         # get block size
         block_size = 0
